@@ -813,7 +813,9 @@ impl<'a> World<'a> {
         (h, m)
     }
 
-    pub fn assets_for(&self, i: usize, time_units: bool) -> Assets {
+    /// `abs_time` / `rel_time`: describe the clock to the planner in time-based units for the absolute
+    /// resp. relative lock (chosen independently: nLockTime and nSequence are independent fields).
+    pub fn assets_for(&self, i: usize, abs_time: bool, rel_time: bool) -> Assets {
         let (vh, vm) = self.view();
         let ic = &self.env.inputs[i];
         let mut assets = Assets::new();
@@ -843,21 +845,19 @@ impl<'a> World<'a> {
         let age_blocks = (vh + 1).saturating_sub(ic.conf_height).min(0xffff);
         let coin_time = self.chain.mtp(ic.conf_height.max(self.chain.base_height + 1) - 1);
         let age_time = (vm.saturating_sub(coin_time) / 512).min(0xffff);
-        if time_units {
+        if abs_time {
             if vm > 500_000_000 {
                 assets = assets.after(absolute::LockTime::from_consensus(vm - 1));
             }
-            if age_time > 0 {
-                if let Ok(l) = relative::LockTime::from_512_second_intervals(age_time as u16).try_into() {
-                    let l: relative::LockTime = l;
-                    assets = assets.older(l);
-                }
-            }
         } else {
             assets = assets.after(absolute::LockTime::from_consensus(vh));
-            if age_blocks > 0 {
-                assets = assets.older(relative::LockTime::from_height(age_blocks as u16));
+        }
+        if rel_time {
+            if age_time > 0 {
+                assets = assets.older(relative::LockTime::from_512_second_intervals(age_time as u16));
             }
+        } else if age_blocks > 0 {
+            assets = assets.older(relative::LockTime::from_height(age_blocks as u16));
         }
         assets
     }
@@ -900,6 +900,8 @@ impl<'a> World<'a> {
         self.stats.epochs += 1;
         let ep = self.coord.epoch;
         let time_units = self.sc.knobs.prefer_time_units ^ (self.dec.choose(&format!("units{}", ep), 4) == 1);
+        // the relative lock's unit is chosen independently of the absolute one in a third of the epochs
+        let rel_time = if self.dec.choose(&format!("relunits{}", ep), 3) == 1 { !time_units } else { time_units };
         let n = self.env.inputs.len();
         let (vh, vm) = self.view();
         let mut lock_time: u32 = 0;
@@ -911,7 +913,7 @@ impl<'a> World<'a> {
                 if self.env.inputs[i].foreign {
                     continue;
                 }
-                let assets = self.assets_for(i, time_units);
+                let assets = self.assets_for(i, time_units, rel_time);
                 let mall = self.dec.choose(&format!("planmall{}:{}", ep, i), 3) == 1;
                 monitors::probe_plan(self, i, &assets);
                 let d = self.env.inputs[i].desc.clone();
@@ -955,7 +957,7 @@ impl<'a> World<'a> {
                 let age_time = (vm.saturating_sub(coin_time) / 512).min(0xffff);
                 seqs[i] = match self.dec.choose(&format!("seq{}:{}", ep, i), 6) {
                     0 | 1 => {
-                        if time_units {
+                        if rel_time {
                             (1 << 22) | age_time
                         } else {
                             age_blocks
@@ -1092,7 +1094,8 @@ impl<'a> World<'a> {
             let units = self.dec.choose(&format!("planunits:{}", self.stats.attempts), 2) == 1;
             for i in 0..self.env.inputs.len() {
                 if !self.env.inputs[i].foreign {
-                    let assets = self.assets_for(i, units);
+                    let rel_units = self.dec.choose(&format!("planrelunits:{}", self.stats.attempts), 2) == 1;
+                    let assets = self.assets_for(i, units, rel_units);
                     monitors::probe_plan(self, i, &assets);
                 }
             }
